@@ -127,6 +127,36 @@ class SymTime:
         return False
 
 
+class SymDelta:
+    """timedelta in whole seconds"""
+
+    def __init__(self, secs):
+        self.secs = secs
+
+    def pz_call(self, interp, name, args, kwargs):
+        if name == "total_seconds":
+            return self.secs
+        raise pyz3.Unsupported(f"timedelta.{name}()")
+
+    def pz_getattr(self, name):
+        if name == "days":
+            return self.secs / 86400
+        if name == "seconds":
+            return self.secs % 86400
+        if name == "microseconds":
+            return 0
+        raise pyz3.Unsupported(f"timedelta.{name}")
+
+    def pz_eq(self, other):
+        if isinstance(other, SymDelta):
+            return self.secs == other.secs
+        if isinstance(other, _dt.timedelta):
+            if other.microseconds:
+                return False
+            return self.secs == other.days * 86400 + other.seconds
+        return False
+
+
 class SymDT:
     """aware datetime (t, off); representable iff MIN_LOCAL <= t + off <= MAX_LOCAL"""
 
@@ -163,7 +193,7 @@ class SymDT:
         if name == "isoformat":
             return pyz3.Opaque("datetime.isoformat")
         if name == "utcoffset":
-            raise pyz3.Unsupported("utcoffset")
+            return SymDelta(self.off)
         raise pyz3.Unsupported(f"datetime.{name}()")
 
     def pz_eq(self, other):
